@@ -107,6 +107,23 @@ def AFlags (cfg : Cfg) (s : State) : Prop :=
   (0 < s.acc.returned → s.acc.resolved = true) ∧
   (s.acc.handleDone = true → s.acc.phase = .exited)
 
+/-- I3': the dispatch loop's counters stay in range. -/
+def Ranges (cfg : Cfg) (s : State) : Prop :=
+  (0 < cfg.n → s.acc.next < cfg.n) ∧ s.acc.tries ≤ cfg.n
+
+theorem ranges_init (cfg : Cfg) : Ranges cfg init := by
+  simp [Ranges, init]
+
+theorem ranges_step {cfg : Cfg} {s s' : State} {e : Event} (h : Ranges cfg s)
+    (hs : step cfg s e = some s') : Ranges cfg s' := by
+  obtain ⟨h1, h2⟩ := h
+  cases e
+  all_goals open_step hs
+  all_goals (simp only [Ranges]; unfold_setters)
+  all_goals (try (simp_all; done))
+  all_goals (try (refine ⟨fun hn => Nat.mod_lt _ hn, by omega⟩))
+  all_goals (try (simp_all; omega))
+
 theorem aflags_init (cfg : Cfg) : AFlags cfg init := by
   simp [AFlags, init]
 
@@ -274,16 +291,18 @@ structure Inv (cfg : Cfg) (s : State) : Prop where
   resol : Resol cfg s
   wdone : WDone s
   modeagree : ModeAgree s
+  ranges : Ranges cfg s
 
 theorem inv_init (cfg : Cfg) : Inv cfg init :=
   ⟨coupling_init, wflags_init, aflags_init cfg, links_init, conserv_init, drained_init, resol_init cfg,
-    wdone_init, modeagree_init⟩
+    wdone_init, modeagree_init, ranges_init cfg⟩
 
 theorem inv_step {cfg : Cfg} {s s' : State} {e : Event} (h : Inv cfg s) (hs : step cfg s e = some s') :
     Inv cfg s' :=
   ⟨coupling_step h.coupling hs, wflags_step h.wflags hs, aflags_step h.aflags hs, links_step h.links hs,
     conserv_step h.conserv hs, drained_step h.drained h.coupling h.wflags hs, resol_step h.resol h.aflags hs,
-    wdone_step h.wdone h.links h.wflags hs, modeagree_step h.modeagree h.coupling h.aflags hs⟩
+    wdone_step h.wdone h.links h.wflags hs, modeagree_step h.modeagree h.coupling h.aflags hs,
+    ranges_step h.ranges hs⟩
 
 theorem run_cons {cfg : Cfg} {s s' : State} {e : Event} {es : List Event} (h : run cfg s (e :: es) = some s') :
     ∃ s₁, step cfg s e = some s₁ ∧ run cfg s₁ es = some s' := by
